@@ -151,6 +151,7 @@ type TermStore struct {
 	terms []*Term
 	vars  []*Term
 	ufs   map[string]string // name -> declaration
+	bin   map[[3]int]*Term  // memo of binary and/or
 	True  *Term
 	False *Term
 }
@@ -158,7 +159,7 @@ type TermStore struct {
 var TS *TermStore
 
 func NewTermStore() *TermStore {
-	ts := &TermStore{tab: map[string]*Term{}, ufs: map[string]string{}}
+	ts := &TermStore{tab: map[string]*Term{}, ufs: map[string]string{}, bin: map[[3]int]*Term{}}
 	ts.True = ts.intern(&Term{op: OpConst, sort: BoolSort, val: 1})
 	ts.False = ts.intern(&Term{op: OpConst, sort: BoolSort, val: 0})
 	return ts
@@ -271,47 +272,97 @@ func isNeg(a, b *Term) bool {
 	return (a.op == OpNot && a.args[0] == b) || (b.op == OpNot && b.args[0] == a)
 }
 
+func hasID(sorted []*Term, id int) bool {
+	lo, hi := 0, len(sorted)
+	for lo < hi {
+		mid := (lo + hi) / 2
+		if sorted[mid].id < id {
+			lo = mid + 1
+		} else {
+			hi = mid
+		}
+	}
+	return lo < len(sorted) && sorted[lo].id == id
+}
+
 func nary(op Op, in []*Term) *Term {
+	if len(in) == 2 {
+		k := [3]int{int(op), in[0].id, in[1].id}
+		if in[0].id > in[1].id {
+			k = [3]int{int(op), in[1].id, in[0].id}
+		}
+		if r, ok := TS.bin[k]; ok {
+			return r
+		}
+		r := nary0(op, in)
+		TS.bin[k] = r
+		return r
+	}
+	return nary0(op, in)
+}
+
+func nary0(op Op, in []*Term) *Term {
 	unit, zero := TS.True, TS.False
 	if op == OpOr {
 		unit, zero = TS.False, TS.True
 	}
-	seen := map[int]bool{}
-	var out []*Term
-	var add func(t *Term) bool
-	add = func(t *Term) bool {
+	// fast path: and(x, y) with nothing to flatten
+	if len(in) == 2 {
+		a, b := in[0], in[1]
+		if a == zero || b == zero {
+			return zero
+		}
+		if a == unit {
+			return b
+		}
+		if b == unit {
+			return a
+		}
+		if a == b {
+			return a
+		}
+	}
+	n := 0
+	for _, t := range in {
+		if t.op == op {
+			n += len(t.args)
+		} else {
+			n++
+		}
+	}
+	out := make([]*Term, 0, n)
+	for _, t := range in {
 		if t == unit {
-			return true
+			continue
 		}
 		if t == zero {
-			return false
+			return zero
 		}
 		if t.op == op {
-			for _, a := range t.args {
-				if !add(a) {
-					return false
-				}
-			}
-			return true
-		}
-		if seen[t.id] {
-			return true
-		}
-		seen[t.id] = true
-		out = append(out, t)
-		return true
-	}
-	for _, t := range in {
-		if !add(t) {
-			return zero
+			out = append(out, t.args...) // children are already flat
+		} else {
+			out = append(out, t)
 		}
 	}
+	if len(out) == 0 {
+		return unit
+	}
+	sort.Slice(out, func(i, j int) bool { return out[i].id < out[j].id })
+	// dedupe
+	w := 1
+	for i := 1; i < len(out); i++ {
+		if out[i] != out[w-1] {
+			out[w] = out[i]
+			w++
+		}
+	}
+	out = out[:w]
 	for _, t := range out {
-		if t.op == OpNot && seen[t.args[0].id] {
+		if t.op == OpNot && hasID(out, t.args[0].id) {
 			return zero
 		}
 	}
-	if op == OpAnd {
+	if op == OpAnd && len(out) <= 512 {
 		// a and b and not(a and c)  ->  a and b and not c
 		for i, t := range out {
 			if t.op != OpNot || t.args[0].op != OpAnd {
@@ -320,7 +371,7 @@ func nary(op Op, in []*Term) *Term {
 			inner := t.args[0].args
 			var rest []*Term
 			for _, x := range inner {
-				if !seen[x.id] {
+				if !hasID(out, x.id) {
 					rest = append(rest, x)
 				}
 			}
@@ -335,16 +386,12 @@ func nary(op Op, in []*Term) *Term {
 			nw = append(nw, out[:i]...)
 			nw = append(nw, out[i+1:]...)
 			nw = append(nw, repl)
-			return nary(op, nw)
+			return nary0(op, nw)
 		}
-	}
-	if len(out) == 0 {
-		return unit
 	}
 	if len(out) == 1 {
 		return out[0]
 	}
-	sort.Slice(out, func(i, j int) bool { return out[i].id < out[j].id })
 	if op == OpOr && len(out) <= 24 {
 		if r := factorOr(out); r != nil {
 			return r
